@@ -47,21 +47,31 @@ func manyBytes(n, l int, fill byte) [][]byte {
 
 // HostileMsgs returns labelled hostile payloads; eon is the currently running eon (if any) and
 // addrs some real 20-byte addresses.
-func HostileMsgs(r *vlib.Rng, u *Universe, eon uint64) []struct {
-	Label string
-	Msg   *shmsg.Message
-} {
-	type lm = struct {
-		Label string
-		Msg   *shmsg.Message
-	}
+// HostileMsg is a labelled hostile payload. Invalid: structurally invalid whatever the
+// application state and whoever signs it, so it must be answered with a non-zero code.
+type HostileMsg struct {
+	Label   string
+	Msg     *shmsg.Message
+	Invalid bool
+}
+
+func HostileMsgs(r *vlib.Rng, u *Universe, eon uint64) []HostileMsg {
+	type lm = HostileMsg
 	a := func(i int) []byte { return u.Addrs[i%len(u.Addrs)].Bytes() }
 	short, long := a(0)[:19], append(a(0), 7)
 	big := ^uint64(0)
 	inf := make([]byte, 96)
 	inf[0] = 0xc0
 	var out []lm
-	add := func(l string, m *shmsg.Message) { out = append(out, lm{l, m}) }
+	alwaysInvalid := map[string]bool{
+		"bc:addr19": true, "bc:addr21": true, "bc:addr0": true, "bc:nokeypers": true, "bc:th0": true, "bc:thmax": true,
+		"ci:val0": true, "ci:val31": true, "ci:val33": true, "ci:enc0": true, "ci:encprefix9": true,
+		"pe:mismatch": true, "pe:mismatch2": true, "pe:addr19": true, "pe:addr21": true,
+		"pc:len95": true, "pc:len0": true, "pc:len192": true,
+		"ac:addr19": true, "ap:mismatch": true, "ap:mismatch2": true, "ap:addr21": true,
+		"empty-message": true, "nil-message": true,
+	}
+	add := func(l string, m *shmsg.Message) { out = append(out, lm{Label: l, Msg: m, Invalid: alwaysInvalid[l]}) }
 	bc := func(act uint64, ks [][]byte, th, idx uint64) *shmsg.Message {
 		return &shmsg.Message{Payload: &shmsg.Message_BatchConfig{BatchConfig: &shmsg.BatchConfig{ActivationBlockNumber: act, Keypers: ks, Threshold: th, KeyperConfigIndex: idx}}}
 	}
